@@ -1129,3 +1129,17 @@ pub open spec fn x691_integer(min: Option<i64>, max: Option<i64>, ext: bool, v: 
     } else if min is None && max is None { x691_uwn(v) }
     else { x691_cwn(lo as int, hi as int, v as int) }
 }
+
+/// 14 / 23 decoder: index of an ENUMERATED value or CHOICE alternative
+pub open spec fn dec_index(bytes: Seq<u8>, pos: int, limit: int, std_variants: u64, extensible: bool) -> Option<(u64, int)> {
+    let root = (if std_variants >= 1 { std_variants - 1 } else { 0 }) as u64;
+    if extensible {
+        if pos >= limit { None }
+        else if bit_at(bytes, pos) {
+            match dec_nsnnwn(bytes, pos + 1, limit) {
+                Some((v, p)) => if v + std_variants <= u64::MAX { Some(((v + std_variants) as u64, p)) } else { None },
+                None => None,
+            }
+        } else { dec_cwn(bytes, pos + 1, limit, root) }
+    } else { dec_cwn(bytes, pos, limit, root) }
+}
